@@ -649,7 +649,9 @@ func (c *Compiler) applyUsesToNode(mod, nod, use parse.Node, parentStatus schema
 	// grouping of the grouping's body that has the same name is not one.
 	targetNodes := make([]parse.Node, 0, len(refinedNodes))
 	for _, n := range refinedNodes {
-		if t := n.Type(); t != parse.NodeTypedef && t != parse.NodeGrouping {
+		// (nor is the use of an extension, whose argument may read like one)
+		if t := n.Type(); t != parse.NodeTypedef && t != parse.NodeGrouping &&
+			t != parse.NodeUnknown && !t.IsExtensionNode() {
 			targetNodes = append(targetNodes, n)
 		}
 	}
